@@ -33,6 +33,10 @@ Src_t1(n) == Fails \cup {Ok(<<Mod(n, i, s)>>) : i \in Imp3, s \in {"ok", "symerr
 Req_q3 == {<<"A">>, <<"B", "A">>}
 Src_q3(n) == {A("nf"), A("err")} \cup {Ok(<<Mod(n, i, "ok")>>) : i \in (IF n = "A" THEN {<<>>, <<"B">>} ELSE {<<>>})}
 
+\* --- liveness slice: cycles and self imports, every phase reachable; checked under SPECIFICATION Spec (weak fairness)
+Req_l1 == {<<"A">>, <<"B", "A">>}
+Src_l1(n) == {A("nf"), A("parseerr")} \cup {Ok(<<Mod(n, i, "ok")>>) : i \in {<<>>, <<"A">>, <<"B">>, <<"B", "A">>}}
+
 NoConstImp == <<>>
 Export == (pc = "done") => PrintT(ToJson(Scenario))
 ExportSome == (pc = "done" /\ (Len(log) + Cardinality(DOMAIN env)) % 7 = 0) => PrintT(ToJson(Scenario))
